@@ -39,7 +39,8 @@ import (
 //
 // How a deferred function (D, Script.Defers) ends is told by its id (deferKind): with the bad flag it
 // panics; ids 200..299 call T.FailNow (even) or T.Fatal (odd); ids 300..399 call T.Skip; ids 400..499
-// (D only) call ts.Fatalf, which outside a script line is a panic.  G with an id in 30..49 starts the
+// (D only) call ts.Fatalf: run() catches the failNow panic once the chain of deferred functions is through
+// and fails the run.  G with an id in 30..49 starts the
 // helper by its absolute path (no PATH needed).
 type Action struct {
 	Op   string  `json:"op"`
@@ -446,8 +447,9 @@ func (a *Action) modelTokens(out *[]string) {
 	case "P":
 		*out = append(*out, "P", pathTok(a.Path), b01(a.Flag))
 	case "D":
-		// for the model a function that calls ts.Fatalf panics (it does: outside a script line nothing catches it)
-		*out = append(*out, "D", fmt.Sprint(a.ID), b01(a.Flag || deferKind(a.ID, false) == "tsfatalf"))
+		// (how the function ends is told by its id, in the model as here: ids 400..499 end with ts.Fatalf,
+		// which run() catches and turns into a failure of the run)
+		*out = append(*out, "D", fmt.Sprint(a.ID), b01(a.Flag))
 	case "G":
 		*out = append(*out, a.Op, fmt.Sprint(a.ID), b01(a.Flag))
 	case "O", "F", "K", "T", "Z", "N", "Y", "U", "S", "A":
